@@ -23,7 +23,7 @@ PROP = "C20"
 BATCH = 400
 SHRINK_EVALS = 3000
 FUNCS_1D = ["nansum", "nanmean", "nanmin", "nanmax", "nanvar", "nanstd", "count"]
-DT_QUICK = ["float64", "int64"]
+DT_QUICK = ["float64", "int64", "int32"]
 DT_THOROUGH = ["float64", "int64", "float32", "int32"]
 FUNCS_2D = ["nansum", "nanmin", "nanmax"]
 HELPERS = ["nb_dot", "bools_to_categorical", "pretty_cut"]
@@ -46,6 +46,9 @@ EXPECTED_PROBES = ["blocks_ge2", "blocks_gt_elements", "all_null_block", "defaul
 _F = [1.0, np.nan, 0.0, -2.0, 0.5, 3.0, 7.0]
 _FA = [0.1, np.nan, 1e-3, -3.7, 2.5e5, 1 / 3, -1e-7, 123.456, 9.99e5]
 _I = [1, 0, -2, 3, 7, 5, 1000]
+# a second integer alphabet with realistic large magnitudes (ids, cents, epoch seconds):
+# block sums leave the int32 range and squares leave the int64 range
+_IL = [1_073_741_824, 0, -2, 1_000_000_007, 7, -1_073_741_000, 1000]
 
 
 def classes(tier):
@@ -65,7 +68,7 @@ def n_runs(tier):
 def _letters(s: Choices, n, is_float, arb):
     idx = [s.draw(7) for _ in range(n)]
     if is_float:
-        pat = s.weighted([(5, "as_drawn"), (1, "none"), (2, "leading"), (2, "trailing"), (2, "block"), (1, "all")])
+        pat = s.weighted([(5, "as_drawn"), (1, "none"), (2, "leading"), (2, "trailing"), (2, "block"), (1, "all"), (1, "constant")])
         NULL = 1
         if pat == "none":
             idx = [0 if i == NULL else i for i in idx]
@@ -80,6 +83,10 @@ def _letters(s: Choices, n, is_float, arb):
             idx = [NULL if a <= j < b else i for j, i in enumerate(idx)]
         elif pat == "all":
             idx = [NULL] * n
+        elif pat == "constant":
+            # a constant array: the one-pass variance formula is all cancellation
+            c = [0, 3, 5, 7, 8, 2][s.draw(6)]
+            idx = [c] * n
     else:
         pat = "none"
     return idx, pat
@@ -89,7 +96,8 @@ def _arr(idx, dtype, arb):
     if dtype.startswith("float"):
         alpha = _FA if arb else _F
         return np.array([alpha[i % len(alpha)] for i in idx], dtype=dtype)
-    return np.array([_I[i % len(_I)] for i in idx], dtype=dtype)
+    alpha = _IL if arb else _I
+    return np.array([alpha[i % len(alpha)] for i in idx], dtype=dtype)
 
 
 def gen(s: Choices, cls, cfg):
@@ -99,9 +107,11 @@ def gen(s: Choices, cls, cfg):
         size_class = s.weighted([(6, 0), (3, 1), (1, 2)])
         n = 1 + (s.draw(8) if size_class == 0 else 8 + s.draw(12) if size_class == 1 else 20 + s.draw(44))
         is_float = dtype.startswith("float")
-        arb = is_float and s.chance(1, 8)
+        arb = s.chance(1, 8)  # floats: arbitrary values; ints: large magnitudes
         sc["arb"] = arb
         sc["idx"], sc["nullpat"] = _letters(s, n, is_float, arb)
+        if sc["nullpat"] == "constant":
+            sc["arb"] = True  # values such as 0.1 whose squares are not exact
         sc["n_threads"] = s.weighted([(3, None), (1, 1), (2, 2), (2, 3), (1, 4), (1, 5), (1, 8), (1, 7), (1, 6)])
         sc["cpu"] = s.weighted([(4, 4), (2, 1), (1, 2), (1, 16), (1, 64)])
         sc["elems"] = s.weighted([(3, None), (2, 1), (2, 2), (2, 4), (1, 8), (1, 16)])
@@ -216,7 +226,8 @@ def _close(a, b, tol):
 def _tol(func, a64, dtype, ddof):
     x = a64[~np.isnan(a64)] if a64.dtype.kind == "f" else a64
     n = max(int(x.size), 1)
-    u = 2.0**-53
+    # float32 input: the library squares in float32 (and NumPy itself would reduce in float32)
+    u = 2.0**-24 if dtype == "float32" else 2.0**-53
     s1 = float(np.abs(x).sum()) if x.size else 0.0
     s2 = float((x.astype(np.float64) ** 2).sum()) if x.size else 0.0
     if func in ("nanmin", "nanmax", "count"):
